@@ -138,6 +138,12 @@ Theorem C03_comb_tables_regenerated : comb_base_gen = comb_base_std /\ comb_pair
 Proof. exact (conj eq_refl eq_refl). Qed.
 Print Assumptions C03_comb_tables_regenerated.
 
+(* every tensor access of hard_core_boson_operator (hcb.py) and spatial_from_spinorb (coefficients.py), as
+   regenerated from the current source, is the one of the model table: swapping two index patterns breaks this *)
+Theorem C03_hcb_tables_regenerated : hcb_tab_gen = hcb_std.
+Proof. exact eq_refl. Qed.
+Print Assumptions C03_hcb_tables_regenerated.
+
 (* 8. combinatorial.py, recursive_mapping base case (over the regenerated table = standard table): the four
       emitted coefficients denote the 2x2 matrix M, i.e. c_I I + c_X X + c_Z Z + c_Y Y = M entrywise. *)
 Theorem C03_comb_base_case_denotes :
